@@ -259,6 +259,19 @@ func lsmEnabled(x *seqExec) []string {
 	if x.j.Bool("closecompact", false) {
 		ops = append(ops, "CX")
 	}
+	if only := x.j.Str("ops", ""); only != "" {
+		allow := map[string]bool{}
+		for _, o := range strings.Fields(only) {
+			allow[o] = true
+		}
+		var f []string
+		for _, o := range ops {
+			if allow[o] {
+				f = append(f, o)
+			}
+		}
+		ops = f
+	}
 	return ops
 }
 
